@@ -360,6 +360,13 @@ fn feed(w: &mut World) {
     w.tls = Some(t);
 }
 
+fn clean_close_at(w: &World) -> Option<usize> {
+    w.faults.iter().find_map(|f| match f.at {
+        crate::plan::FaultAt::TlsCleanClose(k) => Some(k as usize),
+        _ => None,
+    })
+}
+
 pub fn read_tls(w: &mut World, op: u64, ridx: u64, buf: &mut [u8]) -> io::Result<usize> {
     feed(w);
     // the inner (plaintext) client model decides what the client wants to say next
@@ -371,7 +378,10 @@ pub fn read_tls(w: &mut World, op: u64, ridx: u64, buf: &mut [u8]) -> io::Result
         // everything handed to the TLS client so far has reached the server
         w.delivered = w.tls.as_ref().unwrap().inner_written;
         w.client_step_pub();
-        let (from, to) = (w.tls.as_ref().unwrap().inner_written, w.released);
+        let (from, mut to) = (w.tls.as_ref().unwrap().inner_written, w.released);
+        if let Some(c) = clean_close_at(w) {
+            to = to.min(c);
+        }
         if to > from {
             let chunk = w.cbytes[from..to].to_vec();
             let t = w.tls.as_mut().unwrap();
@@ -381,6 +391,22 @@ pub fn read_tls(w: &mut World, op: u64, ridx: u64, buf: &mut [u8]) -> io::Result
                 .expect("harness: TLS client refused plaintext");
             t.inner_written = to;
             t.pump_out();
+        }
+    }
+    // an orderly close in the middle of the script (fault kind TlsCleanClose)
+    if let Some(c) = clean_close_at(w) {
+        let released = w.released;
+        let t = w.tls.as_mut().unwrap();
+        if !t.closed && t.inner_written >= c.min(released) && released >= c && !t.conn.is_handshaking() && t.out_delivered == t.out.len() {
+            t.closed = true;
+            t.conn.send_close_notify();
+            t.pump_out();
+            if w.fault_fired.is_none() {
+                w.fault_fired = Some(op);
+                w.ev_pub(Ev::Fault { op });
+            }
+            w.fault_on_performed = true;
+            w.eof_injected = true;
         }
     }
     // script exhausted and everything delivered: an orderly client sends close_notify before
